@@ -2,7 +2,7 @@
    All theorems are about Model.step / Model.exec (the functions the correspondence run evaluates), for
    every history h : list op (a concurrent history is one of these once operations are atomic, which the
    check establishes separately: lock-discipline scan + linearizability run).
-   keep = true is the repaired code (fix 5a191987...), keep = false the code before the repair. *)
+   keep = true is the repaired code (fix feca1387), keep = false the code before the repair. *)
 From Cache Require Import Model Proofs.
 Open Scope Z_scope.
 
